@@ -189,21 +189,28 @@ TRACE_LINES = [
     ("project=ex3 WeatherFolder=historical soilId=075 fcode=109_120 plotNr=10001 Altitude=73 Latitude=52.6732 poligonID=29872 PTF=2", "EN"),
     ("project=myP WeatherFolder=extreme soilId=075 plotNr=10001 Altitude=73 Latitude=52.6732 poligonID=29872 ETpot=2 AutoIrrigation=0", "EN"),
     # a peat soil (top texture 'H...': run.go takes Denitmo instead of Denitr) under the per-year weather layout, with frost days
-    ("project=MUN WeatherFolder=MUN soilId=011 fcode=NEU plotNr=00006 Altitude=55 Latitude=54.00 poligonID=MUN parameter=./parameter StartYear=2009", "DE", (2010, 2015)),
+    ("project=MUN WeatherFolder=MUN soilId=011 fcode=NEU plotNr=00006 Altitude=55 Latitude=54.00 poligonID=MUN parameter=./parameter StartYear=2009", "DE"),
     ("project=bulk WeatherFolder=extreme soilId=002 fcode=109_120 plotNr=10001 Altitude=73 Latitude=52.6732 poligonID=29872", "EN"),
     ("project=rue WeatherFolder=historical fcode=109_121 plotNr=10002 soilId=001 Altitude=46 Latitude=52.6431 poligonID=30169", "DE"),
     ("project=ex1 WeatherFolder=extreme soilId=041 fcode=109_121 plotNr=10001 Altitude=73 Latitude=52.6680 poligonID=29876 ETpot=1", "EN"),
 ]
 
 
+# entries of TRACE_LINES (two-tuples: other modules unpack them) that cannot use the common end year
+TRACE_PERIOD = {"project=MUN ": (2010, 2015)}
+
+
+def common_period_lines():
+    """TRACE_LINES that run over the common 1980-... period (for modules that append their own EndDate)"""
+    return [(ln, fmt) for ln, fmt in TRACE_LINES if not any(k in ln for k in TRACE_PERIOD)]
+
+
 def trace_lines(ctx, nlines, end_year):
     out = []
-    for i, entry in enumerate(TRACE_LINES[:nlines]):
-        ln, fmt = entry[0], entry[1]
-        if len(entry) > 2:      # a line with its own period: (end year quick, end year thorough)
-            end_year_i = entry[2][1] if ctx.thorough else entry[2][0]
-        else:
-            end_year_i = end_year
+    for i, (ln, fmt) in enumerate(TRACE_LINES[:nlines]):
+        # lines with their own period (project MUN starts in 2009): (end year quick, end year thorough)
+        own = [v for k, v in TRACE_PERIOD.items() if k in ln]
+        end_year_i = (own[0][1] if ctx.thorough else own[0][0]) if own else end_year
         end = ("1231%d" if fmt == "EN" else "3112%d") % end_year_i
         out.append("%s EndDate=%s resultfolder=R/t%d" % (ln, end, i))
     return out
